@@ -148,6 +148,9 @@ class Engine(Interp):
                 ms.examined = (cw(ms.examined[0]), pos(ms.examined[1]), pos(ms.examined[2])) + tuple(ms.examined[3:])
             if ms.pending is not None:
                 ms.pending = (pos(ms.pending[0]), cw(ms.pending[1]) if ms.pending[1] is not None else None)
+            if ms.asked is not None:
+                ms.asked = tuple((pos(lo), pos(hi)) for lo, hi in ms.asked)
+                ms.asked_carry = None
         for k in sorted(s2.pairs, key=str):
             pv = s2.pairs[k]
             if pv is not None:
@@ -165,7 +168,7 @@ class Engine(Interp):
         for mid in sorted(st.maps):
             ms = st.maps[mid]
             mp.append((mid, ms.len, ms.cap, ms.holes, ms.extras, ms.hole_rng, ms.extra_rng, ms.contents,
-                       ms.exempt, ms.dead, ms.owned_extras, ms.examined, ms.pending))
+                       ms.exempt, ms.dead, ms.owned_extras, ms.examined, ms.pending, ms.asked))
         return (fr, ob, tuple(mp), st.unwinding, tuple(sorted(st.pairs.items(), key=str)))
 
     def loop_join(self, table, key, st):
@@ -693,11 +696,11 @@ class Engine(Interp):
                                'refuted', props=['C05'])
                 kt, vt = slots.content(st, mid, idx)
                 if sub == (1,):
-                    slots.set_content(st, mid, idx, (kt, ('usermod', vt)))
+                    slots.set_content(st, mid, idx, (kt, ('usermod', vt)), same_element=True)
                 elif sub == (0,):
-                    slots.set_content(st, mid, idx, (('usermod', kt), vt))
+                    slots.set_content(st, mid, idx, (('usermod', kt), vt), same_element=True)
                 else:
-                    slots.set_content(st, mid, idx, (('usermod', kt), ('usermod', vt)))
+                    slots.set_content(st, mid, idx, (('usermod', kt), ('usermod', vt)), same_element=True)
             elif a[0] == 'tuple':
                 self.havoc_mut_refs(st, a[1])
 
@@ -718,6 +721,8 @@ class Engine(Interp):
         rtags = tuple(self.rtag(st, a) for a in args)
         st.log('user', callee['def'], rtags)
         self.stats['user_calls'] += 1
+        if callee.get('trait') in FN_TRAITS:
+            self.note_asked(st, args[1:])
         self.havoc_mut_refs(st, args)
         self.give_away(st, args, nm)
         out = []
@@ -740,6 +745,24 @@ class Engine(Interp):
             val = self.mk_unknown(s, dest_ty, ('u', callee['def'], rtags), gs)
             out.append(('ret', s, val))
         return out
+
+    def note_asked(self, st, args):
+        """a user callable is called with a reference to a stored element: where that is tracked (retain), it
+        must be the first such call for the element"""
+        for a in args:
+            if a[0] == 'tuple':
+                self.note_asked(st, a[1])
+            elif a[0] == 'ref' and a[2][0] == 'pair' and tuple(a[2][3]) in ((), (0,)):
+                mid, idx = a[2][1], a[2][2]
+                ms = st.maps.get(mid)
+                if ms is None or ms.asked is None:
+                    continue
+                r = slots.asked_possible(st, ms, idx)
+                self.oblig('ASKED-ONCE', r is None, 'user callable',
+                           'the user callable is called for slot %s of %s, which may hold an element it was already '
+                           'called for (asked before: slots [%s,%s))' % ((idx, mid) + (r or (0, 0))), 'refuted',
+                           props=sorted(getattr(self, 'asked_props', ()) or ()), sample='slot %s not asked before' % (idx,))
+                slots.asked_add(st, ms, idx)
 
     def give_away(self, st, args, nm):
         """containers passed by value to user code: they must be well-formed at that moment"""
@@ -842,6 +865,7 @@ class Engine(Interp):
         # opaque user callable
         st.log('user', 'call', tuple(self.tag_of(a) for a in args))
         self.stats['user_calls'] += 1
+        self.note_asked(st, args)
         self.havoc_mut_refs(st, args)
         out = []
         if not st.unwinding:
@@ -978,7 +1002,7 @@ class Engine(Interp):
                 mid, fr, bk = sv[1], sv[2], sv[3]
                 ms = s.maps[mid]
                 if ms.owned_extras or (not slots.empty(s.zone, ms.extra_rng)):
-                    rest_empty = s.zone.entails_le(bk, fr) or slots.empty(s.zone, ms.extra_rng)
+                    rest_empty = slots.empty(s.zone, ms.extra_rng)     # (an exhausted cursor proves nothing)
                     self.oblig('HANDLE-DROP', rest_empty, short(bid),
                                'the owning handle is dropped while it still owns live elements [%s,%s): %s'
                                % (fr, bk, ms.describe()), 'unproven', sample=ms.describe())
